@@ -68,6 +68,11 @@ var brokenTemplates = []string{
 	"send [USD 10] (\n source = { remaining from max \"ten\" from @a 1/2 from @b }\n destination = @d\n)",
 	"send [USD 10] (\n source = @world\n destination = { remaining to { max 5 to @d remaining kept } 1/2 to @e }\n)",
 	"vars {\n account $acc1\n}\nsend [USD 10] (\n source = { 1/2 from @a remaining from @b 1/2 from $acc1 }\n destination = @d\n)\nset_tx_meta(\"k\", $acc1 + 1)",
+	// a defect in a source listed after an unbounded one (never reached, still evaluated)
+	"vars {\n monetary $mon1\n}\nsend [USD 1] (\n source = { @world $mon1 }\n destination = @d\n)",
+	"send [USD 1] (\n source = { @a allowing unbounded overdraft $ghost }\n destination = @d\n)",
+	"send [USD 1] (\n source = { @world max 42 from @b }\n destination = @d\n)",
+	"vars {\n number $num1\n}\nsend [USD 1] (\n source = { max [USD 1] from @world @b allowing overdraft up to $num1 }\n destination = @d\n)",
 	// a variable referenced inside its own origin
 	"vars {\n account $acc1 = meta($acc1, \"acc\")\n}\nsend [USD 1] (\n source = @world\n destination = $acc1\n)",
 	"vars {\n asset $ass1\n monetary $mon1 = balance(@a, $ass1)\n monetary $mon2 = balance(@a, $mon2)\n}\nsend $mon1 (\n source = @world\n destination = @d\n)\nsend $mon2 (\n source = @world\n destination = @d\n)",
@@ -99,7 +104,7 @@ func init() {
 			return cases
 		},
 		Bounds: stdBounds(
-			map[string]interface{}{"templates": "13 valid + 61 edited scripts", "declared_types": "at most one declaration deviates from the required type, over all 6 types and all declarations", "values": "numbers and monetary amounts: every integer; other types: one value each; balances symbolic"},
+			map[string]interface{}{"templates": "13 valid + 65 edited scripts", "declared_types": "at most one declaration deviates from the required type, over all 6 types and all declarations", "values": "numbers and monetary amounts: every integer; other types: one value each; balances symbolic"},
 			map[string]interface{}{"templates": "13 valid + 61 edited scripts", "declared_types": "at most two declarations deviate (all pairs, all 36 type pairs)"}),
 		Assumptions: []string{"variable values are well-typed for the declared types", "metadata used by meta() origins holds well-formed values under keys k, m, acc, p, s, as", "the experimental overdraft flag is on"},
 		Stubs:       apiStubs, Outside: []string{"scripts outside the template lists", "more than two mis-declared variables at once"},
